@@ -1,4 +1,5 @@
 import AioModel.Http
+import AioModel.Generated.C09
 /-!
 # AioModel.C09 — the body-decoding pipeline (transport ⇄ protocol ⇄ payload parser ⇄ decoder ⇄ reader)
 
@@ -80,6 +81,10 @@ structure World (c : Codec) where
   maxLine : Nat := 8190
   maxField : Nat := 8190
   maxTrailers : Nat := 128
+  /-- behaviour flag (probed from the source on every run, `Gen.C09.needsInputClearsPause`): every
+  `return PAYLOAD_NEEDS_INPUT` of `HttpPayloadParser.feed_data` clears `_paused` (the repair of the
+  stale-pause finding); `false` = only the mid-chunk return does (the code before the repair) -/
+  clearOnNeeds : Bool := false
   -- transport and protocol
   trPaused : Bool := false       -- transport.pause_reading() in effect
   connected : Bool := true       -- protocol.transport is not None
@@ -146,8 +151,8 @@ def bsize (buf : List Bytes) : Nat := (buf.map List.length).sum
 
 /-- `World` for a reader created with `limit` (StreamReader.__init__) -/
 def World.init (c : Codec) (limit : Nat) (framing : Framing) (length : Nat) (compressed sniff checkEof lax : Bool)
-    (maxTrailers : Nat := 128) : World c :=
-  { limit := limit, framing := framing, length := length, compressed := compressed, sniff := sniff,
+    (maxTrailers : Nat := 128) (clearOnNeeds : Bool := false) : World c :=
+  { clearOnNeeds := clearOnNeeds, limit := limit, framing := framing, length := length, compressed := compressed, sniff := sniff,
     checkEof := checkEof, lax := lax, maxTrailers := maxTrailers,
     low := limit, high := limit * 2, highChunks := max 4 (limit / 16), lowChunks := max 4 (limit / 16) / 2 }
 
@@ -377,8 +382,9 @@ def tailTooLong (w : World c) : Bool :=
     else w.tail.length
   tl > maxL
 
-/-- `HttpPayloadParser.feed_data(chunk)` -/
-def ppFeed (w : World c) (chunk : Bytes) : World c :=
+/-- `HttpPayloadParser.feed_data(chunk)` up to (not including) the `self._paused = False` that the
+repaired code executes before every `return PAYLOAD_NEEDS_INPUT` -/
+def ppFeedCore (w : World c) (chunk : Bytes) : World c :=
   match w.framing with
   | .length => feedLength w chunk
   | .untilEof => feedUntilEof w chunk
@@ -386,6 +392,15 @@ def ppFeed (w : World c) (chunk : Bytes) : World c :=
     if tailTooLong w then failWith w .lineTooLong else
     let chunk := w.tail ++ chunk
     chunkedLoop (chunk.length + drainFuel w + 4) { w with tail := [] } chunk
+
+/-- `HttpPayloadParser.feed_data(chunk)`.  With `clearOnNeeds` every NEEDS_INPUT return (size line
+incomplete, chunk-EOF incomplete, trailers incomplete, and the final return that serves
+PARSE_LENGTH / PARSE_UNTIL_EOF / loop exit at a chunk boundary) clears the pause flag; the
+mid-chunk return does so in both versions (inside `chunkStep`).  Nothing else happens between
+those assignments and the return, so clearing once here is the same function. -/
+def ppFeed (w : World c) (chunk : Bytes) : World c :=
+  let w := ppFeedCore w chunk
+  if w.res == .needs && w.clearOnNeeds then { w with paused := false } else w
 
 /-- the payload branch of `HttpParser.feed_data(data)` (one message body; bytes after the end of
 the message are dropped from the model's view) -/
